@@ -35,6 +35,27 @@ OTHER_C = b'#include "a.h"\nint h%d(void) { return A_VAL * %d; }\n'
 FLAGS = ['-Wall', '-O1']
 
 
+class ServerHung(Exception):
+    """A client waited CLIENT_TIMEOUT seconds for the server without an answer."""
+
+
+def hang_is_violation(fn):
+    def wrapped(sccache, *a):
+        try:
+            return fn(sccache, *a)
+        except (ServerHung, subprocess.TimeoutExpired):
+            name = '%s(%s)' % (fn.__name__, ','.join(str(x) for x in a))
+            return dict(name=a[0] if a and isinstance(a[0], str) and fn.__name__ == 'run_fault_scenario' else name,
+                        violations=['the server never answered a request within %d s (hung): the build is stalled' % CLIENT_TIMEOUT],
+                        notes=[])
+    wrapped.__name__ = fn.__name__
+    return wrapped
+
+
+# how long a client may wait for the server (a compile of these sources takes well under a second)
+CLIENT_TIMEOUT = 40
+
+
 def scratch():
     return '/dev/shm' if os.path.isdir('/dev/shm') else tempfile.gettempdir()
 
@@ -56,6 +77,7 @@ class Site:
         self.cache = os.path.join(self.d, 'cache')
         self.compiler = compiler
         self.proc = None
+        self.hung = False
         self.write_config(size, rw_mode)
         for n, b in (('main.c', MAIN_C), ('a.h', A_H), ('bad.c', BAD_C)):
             open(os.path.join(self.src, n), 'wb').write(b)
@@ -86,9 +108,11 @@ class Site:
     def stop(self):
         if self.proc is None:
             return
+        if self.hung:
+            self.proc.kill()
         try:
             subprocess.run([self.sccache, '--stop-server'], env=clean_env(self.env), stdout=subprocess.DEVNULL,
-                           stderr=subprocess.DEVNULL, timeout=60)
+                           stderr=subprocess.DEVNULL, timeout=5 if self.hung else 60)
         except Exception:
             pass
         try:
@@ -109,8 +133,16 @@ class Site:
         e = dict(self.env)
         if extra_env:
             e.update(extra_env)
-        r = subprocess.run([self.sccache, self.compiler] + FLAGS + list(extra_args) + ['-c', source, '-o', out],
-                           env=clean_env(e), cwd=self.src, stdout=subprocess.PIPE, stderr=subprocess.PIPE, timeout=300)
+        if self.hung:
+            raise ServerHung()
+        try:
+            r = subprocess.run([self.sccache, self.compiler] + FLAGS + list(extra_args) + ['-c', source, '-o', out],
+                               env=clean_env(e), cwd=self.src, stdout=subprocess.PIPE, stderr=subprocess.PIPE,
+                               timeout=CLIENT_TIMEOUT)
+        except subprocess.TimeoutExpired:
+            # the server never answered (the client waits for ever): reported by the caller as a differing result
+            self.hung = True
+            raise ServerHung()
         obj = open(outp, 'rb').read() if os.path.isfile(outp) else None
         return (r.returncode, r.stdout, r.stderr, obj)
 
@@ -127,13 +159,17 @@ class Site:
         e = dict(self.env)
         if extra_env:
             e.update(extra_env)
-        r = subprocess.run([self.sccache] + list(args), env=clean_env(e), cwd=self.src, stdout=subprocess.PIPE,
-                           stderr=subprocess.PIPE, timeout=300)
+        try:
+            r = subprocess.run([self.sccache] + list(args), env=clean_env(e), cwd=self.src, stdout=subprocess.PIPE,
+                               stderr=subprocess.PIPE, timeout=CLIENT_TIMEOUT)
+        except subprocess.TimeoutExpired:
+            self.hung = True
+            raise ServerHung()
         return r.returncode, r.stdout, r.stderr
 
     def stats(self):
         r = subprocess.run([self.sccache, '--show-stats', '--stats-format=json'], env=clean_env(self.env),
-                           stdout=subprocess.PIPE, stderr=subprocess.PIPE, timeout=60)
+                           stdout=subprocess.PIPE, stderr=subprocess.PIPE, timeout=CLIENT_TIMEOUT)
         return json.loads(r.stdout.decode())['stats']
 
     def entries(self):
@@ -260,6 +296,7 @@ def describe(r):
         r[0], r[1][:200], r[2][:300], 'absent' if r[3] is None else '%d bytes' % len(r[3]))
 
 
+@hang_is_violation
 def run_fault_scenario(sccache, name):
     """returns dict(name, violations=[...], notes=[...], stats=...)"""
     target, how, restart = FAULTS[name]
@@ -339,6 +376,7 @@ def run_fault_scenario(sccache, name):
         s.cleanup()
 
 
+@hang_is_violation
 def run_first_touch_scenario(sccache, mode):
     """The cache directory cannot be opened when the server first touches its stores (a regular file in place of
     its parent directory), the fault is removed later: builds must work throughout, and after the repair a miss
@@ -398,6 +436,7 @@ def run_first_touch_scenario(sccache, mode):
         s.cleanup()
 
 
+@hang_is_violation
 def run_eviction_scenario(sccache, target):
     """An entry replaced by a directory while the size limit is so small that the next store must evict it
     (replace-by-directory + tiny size limit, both in the property's fault list).  target = 'pp' | 'res'.
@@ -489,6 +528,7 @@ exec gcc "$@"
 '''
 
 
+@hang_is_violation
 def run_stats_scenario(sccache, nclients, rounds, seed):
     """Concurrent clients with mixed requests against one server; the counters against the client-side ledger and
     against the log of real compiler runs."""
